@@ -276,10 +276,38 @@ def auto_bounds(ck, prog, config, clause):
                     s.violate(c2, 'unordered', 'comp_init can return with chunk_auto_min > chunk_auto_max (both are '
                               'clamped independently): the automatic chunking loop then refuses every boundary and '
                               'never consumes a byte', inst='auto_min<=auto_max', node=node)
+                if getattr(s, 'need_min', False) and not s.le(ts, 'chunk_min_size', 'chunk_auto_max'):
+                    s.violate(c2, 'unordered', 'comp_init can return with chunk_min_size > chunk_auto_max (a configured '
+                              'minimum above four times the average): the boundary forced at the automatic maximum is '
+                              'refused by the chunk-end function, i stays 0 and zck_write() never returns',
+                              inst='min_size<=auto_max', node=node)
             return ts
+    # does the chunk-end function still refuse a chunk that is below the configured minimum?  Only then can the
+    # boundary forced at chunk_auto_max be refused, and chunk_min_size <= chunk_auto_max is needed for progress
+    ce = chunk_end_function(prog)
+    refusing = False
+    for ex in all_exprs(ce):
+        for n in walk(ex):
+            if n.k == 'bin' and n.op in ('<', '<=', '>', '>='):
+                fs = set(last_field(a) for a in n.a)
+                if 'dc_data_size' in fs and 'chunk_min_size' in fs:
+                    refusing = True
     o = Ord(prog, ci)
+    o.need_min = refusing
     run_rule(prog, ci, o)
     ck.require(o.assigned, 'comp_init no longer computes chunk_auto_min / chunk_auto_max')
+    if refusing:
+        bad = [v for v in o.violations if v.inst == 'min_size<=auto_max']
+        ck.ob(clause, 'R9.order', ci.name, 'min_size<=auto_max', not bad and o.exits >= 1,
+              'every automatic-mode success exit of comp_init has chunk_min_size <= chunk_auto_max, so the boundary forced '
+              'at the automatic maximum is never refused by %s() (%d exit states)' % (ce.name, o.exits)
+              if not bad else bad[0].msg, ci.file, bad[0].node.line if bad else ci.line,
+              path=bad[0].path if bad else None, config=config)
+        o.violations = [v for v in o.violations if v.inst != 'min_size<=auto_max']
+    else:
+        ck.ob(clause, 'R9.order', ci.name, 'min_size<=auto_max', True, '%s() no longer refuses a chunk below the '
+              'configured minimum: the ordering of chunk_min_size and chunk_auto_max is not needed' % ce.name,
+              ci.file, ci.line, config=config, trivial=True)
     ck.ob(clause, 'R9.order', ci.name, 'auto_min<=auto_max', not o.violations and o.exits >= 1,
           'every automatic-mode success exit of comp_init has chunk_auto_min <= chunk_auto_max (%d exit states)' % o.exits
           if not o.violations else o.violations[0].msg, ci.file, o.violations[0].node.line if o.violations else ci.line,
@@ -300,6 +328,11 @@ CLAIM = {
 }
 
 MUTANTS = [
+    {'id': 'm16m', 'desc': 'automatic maximum no longer raised to the configured minimum (pre-fix form)',
+     'file': 'src/lib/comp/comp.c',
+     'old': """            if(zck->chunk_auto_max < zck->chunk_min_size)
+                zck->chunk_auto_max = zck->chunk_min_size;
+""", 'new': '', 'expect': 'R9.order comp_init [min_size<=auto_max]'},
     {'id': 'm35', 'desc': 'buzhash_reset removed', 'file': 'src/lib/comp/comp.c',
      'old': '    buzhash_reset(&(zck->buzhash));\n', 'new': '', 'expect': 'R6.buzhash-reset comp_end_chunk [finish]'},
     {'id': 'm35b', 'desc': 'buzhash_reset before the too-small test', 'file': 'src/lib/comp/comp.c',
